@@ -77,9 +77,9 @@ func l2Plan(prop, tier string) []l2Prog {
 			map[int]string{1: "three elements, two failures, continue", 2: "two elements, one failure, fail-fast"})
 	}
 	p07 := func() {
-		add("verifHarness_p07", "Par07: Slice without index parameter + SliceEnd (context), symbolic length 0..3",
+		add("verifHarness_p07", "Par07: Slice without index parameter + SliceEnd (context), symbolic length 0..2",
 			map[int]string{1: "nil iff no element failed", 2: "element function once per element", 3: "End hook exactly once", 4: "End hook after every element call", 5: "End hook never after a failed/panicked element"},
-			map[int]string{1: "three elements, no failure", 2: "an element panicked"})
+			map[int]string{1: "two elements, no failure", 2: "an element panicked"})
 	}
 	p08 := func() {
 		add("verifHarness_p08", "Par08: Map(k, v) + MapEnd, symbolic map of 0..2 entries (incl. nil), solver-chosen iteration order",
@@ -92,7 +92,7 @@ func l2Plan(prop, tier string) []l2Prog {
 			map[int]string{1: "two entries", 2: "two failures under continue"})
 	}
 	p03 := func() {
-		add("verifHarness_p03", "Par03: Slice without index + Slice with context + Task, symbolic lengths 0..3",
+		add("verifHarness_p03", "Par03: Slice without index (0..3) + Slice with context (0..2) + Task",
 			map[int]string{1: "nil iff nothing failed", 2: "call counts equal the slice lengths", 3: "every element of the no-index slice is delivered", 4: "every (i, s[i]) of the indexed slice exactly once"},
 			map[int]string{1: "lengths 3 and 2"})
 	}
@@ -258,6 +258,9 @@ func l2SpecsMode(prop, tier, mode string, keep []string) ([]*eng.KernelSpec, *en
 	var specs []*eng.KernelSpec
 	for _, pr := range progs {
 		for pol, polName := range []string{"lowest-index-first", "highest-index-first", "any admissible order (solver choice per step)"} {
+			if pol == 2 && pr.noSym && tier != "thorough" {
+				continue
+			}
 			specs = append(specs, &eng.KernelSpec{Prop: prop, Name: pr.name + " [job order: " + polName + "]", Fixed: map[int]int64{9000: int64(pol)}, PkgDir: filepath.Join(corpus.ModDir, "flows"), PkgPath: pkg,
 				Entry: pr.entry, Program: P, GenMode: mode, GenKeep: keep, Fuel: 3000000, MaxStack: 40, AssertNames: pr.assert, CoverNames: pr.cover,
 				Setup: func(k *eng.Kernel) { eng.InstallL2(k, pkg, prop == "C12") }})
